@@ -1,10 +1,13 @@
 use crate::fw::Property;
 
 pub mod c01;
+pub mod c02;
 pub mod c06;
 pub mod c07;
 pub mod c08;
 pub mod c18;
+pub mod c19;
+pub mod c20;
 pub mod pipeline;
 pub mod c09;
 pub mod c10;
@@ -17,7 +20,7 @@ pub mod c16;
 pub mod c17;
 
 pub fn all() -> Vec<Box<dyn Property>> {
-    vec![Box::new(c01::C01), Box::new(pipeline::C03), Box::new(pipeline::C04), Box::new(pipeline::C05), Box::new(c06::C06), Box::new(c07::C07), Box::new(c08::C08), Box::new(c09::C09), Box::new(c10::C10), Box::new(c11::C11), Box::new(c12::C12), Box::new(c13::C13), Box::new(c14::C14), Box::new(c15::C15), Box::new(c16::C16), Box::new(c17::C17), Box::new(c18::C18)]
+    vec![Box::new(c01::C01), Box::new(c02::C02), Box::new(pipeline::C03), Box::new(pipeline::C04), Box::new(pipeline::C05), Box::new(c06::C06), Box::new(c07::C07), Box::new(c08::C08), Box::new(c09::C09), Box::new(c10::C10), Box::new(c11::C11), Box::new(c12::C12), Box::new(c13::C13), Box::new(c14::C14), Box::new(c15::C15), Box::new(c16::C16), Box::new(c17::C17), Box::new(c18::C18), Box::new(c19::C19), Box::new(c20::C20)]
 }
 
 pub fn find(id: &str) -> Option<Box<dyn Property>> {
